@@ -34,7 +34,17 @@ Definition py_call_cb (f : option (value -> bool)) (o : option value) : bool :=
   match f with Some g => cbv g o | None => false end.
 
 (* the hand model's oracles seen from the representation above *)
-Definition rx_of (RXS : list (pystr -> bool)) (p : path) : bool := existsb (fun r => r (render p)) RXS.
+Definition rx_of (RXS : list (pystr -> bool)) (p : path) : bool := existsb (fun r : pystr -> bool => r (render p)) RXS.
 Definition rxh_of (RXS : list (pystr -> bool)) (p : path) (i : nat) : bool :=
-  existsb (fun r => r (render p ++ [cLB] ++ p_of_Z (Z.of_nat i) ++ [cRB])) RXS.
+  existsb (fun r : pystr -> bool => r (render p ++ [cLB] ++ p_of_Z (Z.of_nat i) ++ [cRB])) RXS.
 Definition cb_of (f : option (value -> bool)) : value -> bool := match f with Some g => g | None => no_cb end.
+
+(* the argument of exclude_paths= / include_paths= as the caller passes it: one bare string, or an iterable of strings *)
+Inductive paths_arg := PBare (s : pystr) | PItems (l : list pystr).
+Definition py_arg_truthy (a : paths_arg) : bool := match a with PBare s => py_truthy s | PItems l => py_truthy l end.
+Definition py_is_str (a : paths_arg) : bool := match a with PBare _ => true | PItems _ => false end.   (* isinstance(items, strings) *)
+Definition py_singleton (a : paths_arg) : list pystr := match a with PBare s => [s] | PItems l => l end.   (* {items}; on an iterable: TypeError, not modelled *)
+Definition py_items (a : paths_arg) : list pystr := match a with PBare s => map (fun c => [c]) s | PItems l => l end.   (* set(items) *)
+(* what the hand model takes as ex_arg / inc_arg (the harness passes every accepted shape) *)
+Definition norm_paths_arg (a : paths_arg) : list pystr :=
+  match a with PBare [] => [] | PBare s => [s] | PItems l => l end.
